@@ -97,6 +97,17 @@ for name, ctype, quick in [("uint8", "unsigned char", True), ("uint16", "unsigne
                       flavours={"quick": [O0] if quick else [], "thorough": [O0, "asan-cc", "asanO0-nocc"] if quick else [O0]},
                       shards={"quick": 2, "thorough": 2}))
 
+# submdspan_extents: every slice-specifier kind (index, integral_constant index, full_extent, pair/tuple with run-time and/or
+# integral-constant bounds) in every position of rank 1-3 sources with static / dynamic / mixed extents.
+# SUB_STRICT: also require the static extent the standard derives for a pair of constants on a DYNAMIC source extent (tetl keeps it
+# dynamic: proposed/C19/findings5.jsonl, fix proposed/C19/fixes5/0001) - switch on together with that fix or the finding line.
+SUB_STRICT = False
+for name, ctype, quick in [("int32", "int", True), ("uint64", "unsigned long", False), ("int8", "signed char", False)]:
+    for part in (1, 2):
+        units.append(Unit(f"C19_sub_{name}_part{part}", "harness/C19_sub.cpp",
+                          defs=[f"-DVF_IDX={ctype}", f'-DVF_IDX_NAME="{name}"', f"-DVF_SUBPART={part}", f"-DVF_SUB_STRICT={1 if SUB_STRICT else 0}"],
+                          flavours={"quick": [O0] if quick else [], "thorough": [O0, "asan-cc"] if quick else [O0]}, shards={"quick": 2, "thorough": 2}))
+
 for e, tn in enumerate(["uchar", "int", "tri12", "constint"]):
     units.append(Unit(f"C19_span_{tn}", "harness/C19_span.cpp", defs=[f"-DVF_ELEM={e}"],
                       flavours={"quick": ["asan-cc"], "thorough": ["asan-cc", "asan-nocc", "plain-cc"]}, shards={"quick": 1, "thorough": 2}))
